@@ -102,6 +102,14 @@ def build_and_run(case, v: int, seed: int):
     if not is_jwe:
         jwk = K.get("oct256")
         prot = {"alg": "HS256"}
+        held = jwk
+        other = kind == "member" and name == "alg" and cls == "other_family"
+        if other:
+            # the verifier holds a key of one family, the token names an allowed algorithm of another
+            hk, oalg = JWS_OTHER[v % len(JWS_OTHER)]
+            held = K.get(hk)
+        if kind == "inner" and name == "claims":
+            payload = claims_content(cls, v)
         if fam == "7797":
             prot.update({"b64": False, "crit": ["b64"]})
         unprot = {}
@@ -113,6 +121,8 @@ def build_and_run(case, v: int, seed: int):
             tgt = prot if pos == "protected" else unprot
             if cls == "absent":
                 prot.pop(name, None); unprot.pop(name, None)
+            elif other:
+                prot.pop("alg"); tgt["alg"] = oalg
             else:
                 val = pick(jt_values(cls, name, rnd))
                 if val is None and cls == "str_ok":
@@ -141,17 +151,24 @@ def build_and_run(case, v: int, seed: int):
                 tok = {"payload": parts["payload"], **e}
             else:
                 tok = {"payload": parts["payload"], "signatures": [] if (kind == "json_shape" and cls == "empty_list") else [e]}
-        key = J.jkey(jwk)
+        key = J.jkey(J.pub(held) if other and held.get("kty") != "oct" and v % 2 else held)
         from joserfc import jws, rfc7797, jwt as jwtm
 
         def call():
             reg = None if case["reg"] == "default" else (rfc7797.JWSRegistry if fam == "7797" else jws.JWSRegistry)(strict_check_header=False)
+            if other and oalg not in ("HS256", "RS256", "ES256"):
+                reg = (rfc7797.JWSRegistry if fam == "7797" else jws.JWSRegistry)(algorithms=list(R.JWS_ALGS), strict_check_header=case["reg"] == "default")
             if jwt: return jwtm.decode(tok, key, registry=reg)
             mod = rfc7797 if fam == "7797" else jws
             return mod.deserialize_compact(tok, key, registry=reg) if ser == "compact" else mod.deserialize_json(tok, key, registry=reg)
         return classify(call)
     # ---------------- JWE family
     alg, enc = jwe_alg_for({**slot, "v": v} if kind == "json_shape" else slot)
+    other = kind == "member" and name == "alg" and cls == "other_family"
+    if other:
+        alg, enc = JWE_BASES[v % len(JWE_BASES)]
+        cand = [a for a in R.JWE_ALGS if a != alg]
+        oalg = cand[(v // len(JWE_BASES)) % len(cand)]
     rj = K.get(K.jwe_key_kind(alg, enc))
     sj = K.get("EC:P-256", 1) if alg == "ECDH-1PU" else None
     prot = {"alg": alg, "enc": enc}
@@ -166,8 +183,7 @@ def build_and_run(case, v: int, seed: int):
                    "notjson": good, "nonobject": good, "bomb": R.deflate_raw(b"\0" * 300000),
                    "short": bytes([v % 256]) if v < 256 else bytes([v % 256, (v * 7 + 3) % 256])}[cls]
     if kind == "inner" and name == "claims":
-        pt = {"notjson": b"not json", "nonobject": b"[1]", "corrupt": b"\xff\xfe", "truncated": b'{"a":', "empty": b"", "bomb": b"1",
-              "short": bytes([v % 256])}[cls]
+        pt = claims_content(cls, v)
     hdr_raw = None
 
     def mutate(p_, u_, rs_):
@@ -177,7 +193,9 @@ def build_and_run(case, v: int, seed: int):
             for d in (p_, u_, rs_[0]):
                 if name in d and (cls == "absent" or d is not tgt):
                     d.pop(name)
-            if cls != "absent":
+            if other:
+                tgt[name] = oalg
+            elif cls != "absent":
                 val = pick(jt_values(cls, name, rnd))
                 if val is None and cls == "str_ok":
                     val = alg if name == "alg" else enc
@@ -255,6 +273,20 @@ def build_and_run(case, v: int, seed: int):
     return classify(call)
 
 
+# (key the verifier holds, algorithm the token names): every pairing of one key family with an algorithm of another,
+# and of an EC key with the algorithm of another curve
+JWS_OTHER = [(h, a) for h in ("oct256", "RSA2048", "EC:P-256", "OKP:Ed25519", "EC:P-384", "OKP:Ed448", "EC:secp256k1")
+             for a in ("HS256", "RS256", "ES256", "EdDSA", "PS256", "ES384", "ES256K", "HS512", "ES512")
+             if K.JWS_KEY_KIND[a] != h and not (a == "EdDSA" and h.startswith("OKP:Ed")) and not (a in ("HS256", "HS512") and h == "oct256")]
+JWE_BASES = [("A128KW", "A128GCM"), ("RSA-OAEP", "A128GCM"), ("ECDH-ES+A128KW", "A128GCM"), ("dir", "A128GCM"), ("PBES2-HS256+A128KW", "A128GCM"),
+             ("A128GCMKW", "A128GCM"), ("ECDH-ES", "A128CBC-HS256")]
+
+
+def claims_content(cls: str, v: int) -> bytes:
+    return {"notjson": b"not json", "nonobject": b"[1]", "corrupt": b"\xff\xfe", "truncated": b'{"a":', "empty": b"", "bomb": b"1",
+            "short": bytes([v % 256]), "deep": (DEEP if v % 2 else '{"a":' * 50000 + "1" + "}" * 50000).encode()}[cls]
+
+
 def shape_compact(tok: str, cls: str, want: int):
     if cls == "empty": return ""
     if cls == "not_utf8": return tok.encode()[:10] + b"\xff\xfe" + tok.encode()[10:]
@@ -290,7 +322,7 @@ def run_chunk(args):
     out = []
     for idx, case in items:
         # "short" contents are few enough to try them all: every one-octet stream and a two-octet one for each first octet
-        for v in (range(512) if case["class"] == "short" else range(16) if (case["slot"]["kind"] == "json_shape" and case["class"] == "missing") else range(nvar)):
+        for v in (range(512) if case["class"] == "short" else range(140) if case["class"] == "other_family" else range(16) if (case["slot"]["kind"] == "json_shape" and case["class"] == "missing") else range(nvar)):
             try:
                 o = build_and_run(case, v, seed)
             except Exception as e:  # noqa
@@ -370,7 +402,7 @@ def sig(case, o) -> str:
 def run(ctx: Ctx) -> None:
     thorough = ctx.tier == "thorough"
     r = ctx.tlc("Parse", timeout=600)
-    for d in ("HeaderNotObject", "CritUnvalidated", "EncUnhashable", "EncMissingJson", "EpkCrvLookup", "P2cRange", "InflateError", "DeepJson", "SegmentTypeConfusion", "LenientSkipsAlgParams"):
+    for d in ("HeaderNotObject", "CritUnvalidated", "EncUnhashable", "EncMissingJson", "EpkCrvLookup", "P2cRange", "InflateError", "DeepJson", "SegmentTypeConfusion", "LenientSkipsAlgParams", "KeyTypeGateMissing", "DeepClaims"):
         ctx.sensitivity("Parse", "Parse_dev_" + d)
     cases = list({json.dumps(c["c"], sort_keys=True): c["c"] for c in r.cases}.values())
     if len(cases) < 5000:
